@@ -167,7 +167,8 @@ func OracleC05(c *Case, obs *RunObs) *Failure {
 				break
 			}
 		}
-		if !found && obs.Finished {
+		if !found && obs.Finished && obs.Segs[len(obs.Segs)-1].Class == "done" {
+			// (a run that ends with a failure stops wherever the failure surfaces: the re-run may not have come yet)
 			return &Failure{fmt.Sprintf("node %s asked for a rerun and was never re-run", e.Path), "rerun-lost"}
 		}
 	}
